@@ -82,6 +82,30 @@ Theorem C16_no_circulation_any_state :
 Proof. exact any_state_quiescent. Qed.
 Print Assumptions C16_no_circulation_any_state.
 
+(* the two forwarders of a side: what leaves towards the proxy was flagged,
+   carries no foreign marker, and goes out stamped with the side's own name and
+   a cleared flag (so it is forwarded only once) ... *)
+Theorem C16_outgoing_marked :
+  forall (me : nat) (m m' : msg),
+    pubsub_fwd me false m = Some m' ->
+    m_origin m' = Some me /\ m_fwd m' = Some false /\ m_id m' = m_id m /\ crosses me m = true.
+Proof. exact fwd_out_spec. Qed.
+Print Assumptions C16_outgoing_marked.
+
+(* ... and what is taken from the proxy is unchanged and came from elsewhere *)
+Theorem C16_incoming_foreign_only :
+  forall (me : nat) (m m' : msg),
+    pubsub_fwd me true m = Some m' -> exists o, m_origin m = Some o /\ o <> me /\ m' = m.
+Proof. exact fwd_in_spec. Qed.
+Print Assumptions C16_incoming_foreign_only.
+
+(* no publication has great-grandchildren: local -> proxy -> remote local -> nothing *)
+Theorem C16_three_hops_at_most :
+  forall (sides : list nat) (p q r : pub),
+    In q (children sides p) -> In r (children sides q) -> children sides r = [].
+Proof. exact grandchildren_childless. Qed.
+Print Assumptions C16_three_hops_at_most.
+
 (* agent-side state advances are forwarded by default ... *)
 Theorem C16_agent_advance_forwarded :
   forall (n : nat) (posts : list post) (sched : list nat) (i s0 : nat),
